@@ -44,7 +44,8 @@ claim("C04", "model_checking",
       "TLA+ catalogue model (PlanCatalog.tla) checked by TLC; plans of the MySQL/PostgreSQL planners for every FK digraph scenario tokenised into events and consumed by TLC (PlanCatalogTrace.tla)",
       "TLC explores every statement sequence of PlanCatalog.tla up to 6 (7) statements over 3 tables (FKTargetsExist, Once). The harness plans, with mysql.DefaultPlan and postgres.DefaultPlan, every directed "
       "FK graph with self loops over <= 3 tables x every created/dropped/kept-and-modified split, 4-table graphs for create-all/drop-all (all 65,536 in the thorough tier, a seeded 5% sample in quick) and random 5..8-table "
-      "graphs; each statement becomes a catalogue event and TLC must be able to consume the plan and end in the wanted catalogue with every table created/dropped at most once. Planner errors, panics and timeouts are violations.",
+      "graphs, and every ordered pair of 27 definitions (referenced table x ON UPDATE x ON DELETE) of one foreign key modified in place; each statement becomes a catalogue event and TLC must be able to consume the plan "
+      "(parent exists, constraint name free, index with a key part) and end in the wanted catalogue with every table created/dropped at most once. Planner errors, panics and timeouts are violations.",
       "Trusted: the SQL tokeniser of the harness; engine acceptance rules as written in PlanCatalog.tla.",
       "3 C04")
 claim("C16", "model_checking",
@@ -81,7 +82,8 @@ claim("C01", "model_checking",
       "TLC exports every admissible single edit to and from four seed catalogues (autoincrement, composite and reordered keys, WITHOUT ROWID, STRICT, stored / virtual generated columns, unique / multi-column / descending / partial "
       "indexes, named / unnamed checks, self / cross foreign keys with all five actions; about 2,000 pairs). For each pair the harness creates the current state on a real SQLite file with its own DDL renderer, re-projects it as a "
       "self-check, populates it, lets Atlas inspect / diff (normalized) / plan, executes the plan and projects the result with pragmas only; TLC requires after = desired, no failing statement and an empty second diff. A CLI slice repeats "
-      "the flow through `schema apply` / `schema diff` with HCL.",
+      "the flow through `schema apply` / `schema diff` with HCL. Without an engine, for MySQL and PostgreSQL: every ordered pair of 24 definitions of one column and of 13 definitions of one index goes through the dialect's "
+      "differ and planner, and the clauses of the statements, interpreted by ColCatalog.tla (ColCatalogTrace.tla), must end in the desired columns and indexes.",
       "Trusted: the harness's DDL renderer and pragma projection (self-checked on every start state); SQLite 3.46 of mattn/go-sqlite3; bounded feature grid (2 tables, 3 columns).",
       "3 C01")
 claim("C05", "exploration",
@@ -91,9 +93,10 @@ claim("C05", "exploration",
       "Exploration level: the data grid is one population per state; values compared through quote().",
       "3 C05")
 claim("C17", "exploration",
-      "up-then-down on a real SQLite engine for every reversible plan of the C01 corpus (EngineTrace.tla UndoRestores), down-file / Reversible-flag consistency through all formatters (PlanFileTrace.tla), catalogue-level up/down for MySQL / PostgreSQL (PlanCatalogTrace.tla)",
+      "up-then-down on a real SQLite engine for every reversible plan of the C01 corpus (EngineTrace.tla UndoRestores), down-file / Reversible-flag consistency through all formatters (PlanFileTrace.tla), catalogue-level up/down for MySQL / PostgreSQL (PlanCatalogTrace.tla: tables, foreign keys with their actions, checks; ColCatalog.tla / ColCatalogTrace.tla: columns and indexes of a table)",
       "When Plan.Reversible holds the reverse statements of the changes are executed in reverse order on the real SQLite file and the independent projection must equal the start state. For the three dialects and six formatters the down section must "
-      "be exactly the flattened reversed reverse statements and Reversible must equal 'every change has reverse statements'. MySQL / PostgreSQL up+down statement lists of all FK-graph scenarios over <= 3 tables are replayed through the catalogue model.",
+      "be exactly the flattened reversed reverse statements and Reversible must equal 'every change has reverse statements'. MySQL / PostgreSQL up+down statement lists of all FK-graph scenarios over <= 3 tables, of CHECK change lists and of a foreign key / a column / an index modified in place (every ordered pair of 27 / 24 / 13 definitions) "
+      "are replayed through the catalogue models, which must arrive back at the start; TLC also checks on ColCatalog.tla that a dropped generation expression never comes back while the column stays (why such a plan must not be reported reversible).",
       "MySQL / PostgreSQL only at catalogue level (no engine); rows are not compared after a down migration.",
       "3 C17")
 claim("C03", "exploration",
